@@ -273,7 +273,8 @@ def tlc_temporal(area: str, module: str, cfg: str, tmp: str, workers: int = 4, t
 
     spec_dir = os.path.join(tlc.SPEC_ROOT, area)
     meta = os.path.join(tmp, f"tlcmeta-{module}-{cfg}-{time.time_ns()}")
-    cmd = tlc._java_cmd("4g", None) + ["-workers", str(workers), "-metadir", meta, "-noGenerateSpecTE", "-deadlock",
+    os.makedirs(os.path.join(tmp, "jtmp"), exist_ok=True)
+    cmd = tlc._java_cmd("4g", [f"-Djava.io.tmpdir={os.path.join(tmp, 'jtmp')}"]) + ["-workers", str(workers), "-metadir", meta, "-noGenerateSpecTE", "-deadlock",
                                        "-config", os.path.join(spec_dir, cfg + ".cfg"),
                                        os.path.join(spec_dir, module + ".tla")]
     t0 = time.time()
